@@ -1619,3 +1619,121 @@ Proof.
   destruct (auto_add_spec _ _ _ _ _ Hinv Hpid ltac:(lia) ltac:(lia) Hz Hstep Hok) as (pid & H1 & _ & _ & H3 & H4 & H5 & H6).
   exists pid. unfold auto_pid_ok. repeat split; try assumption; lia.
 Qed.
+
+(* ---------------- table emissions ---------------- *)
+
+Lemma starts_with_tables_unit pid pkts : Forall (fun q => pkt_pid q = pid) pkts -> starts_with_tables pkts = false.
+Proof.
+  intros H. destruct pkts as [|a [|b r]]; try reflexivity.
+  inversion H as [|x xs Ha H']; subst x xs. inversion H' as [|y ys Hb _]; subst y ys.
+  unfold starts_with_tables, is_pat, is_pmt. rewrite Ha, Hb.
+  destruct (pid =? C_PIDPAT) eqn:E1; [|reflexivity]. apply Z.eqb_eq in E1. rewrite E1. reflexivity.
+Qed.
+
+(* what an emission is, for the state s it starts from (the retransmit counter aside) *)
+Definition emission (s s' : mstate) (pkts : list Packet) : Prop :=
+  exists ppay mpay rest,
+    pkts = table_packet C_PIDPAT (wrappingCounter_inc (ms_pat_cc s)) ppay ::
+           table_packet C_pmtStartPID (wrappingCounter_inc (ms_pmt_cc s)) mpay :: rest /\
+    write_psi_data (psi_of_section (pat_section (pat_ver s))) = Ok ppay /\
+    write_psi_data (psi_of_section (pmt_section s (pmt_ver s))) = Ok mpay /\
+    stream_pid_in (ms_pcr_pid s) (ms_streams s) = true /\
+    ms_pat_version s' = fst (next_version (ms_pat_version s) (ms_pm_updated s)) /\
+    ms_pmt_version s' = fst (next_version (ms_pmt_version s) (ms_pmt_updated s)) /\
+    ms_pm_updated s' = false /\ ms_pmt_updated s' = false /\
+    ms_streams s' = ms_streams s /\ ms_pcr_pid s' = ms_pcr_pid s.
+
+Definition no_emission (s s' : mstate) (o : mop) (p : part) : Prop :=
+  starts_with_tables (muxer_pkts o p) = false /\
+  ms_pat_version s' = ms_pat_version s /\ ms_pmt_version s' = ms_pmt_version s /\
+  ms_pm_updated s' = ms_pm_updated s /\ ms_pmt_updated s' = ms_pmt_updated s || content_change o p.
+
+Lemma tables_ok_emission s1 p : tables_ok s1 (tables_state s1) p -> emission s1 (tables_state s1) (pa_pkts p).
+Proof.
+  intros (ppay & mpay & bpat & bpmt & _ & Hp & _ & _ & _ & _ & H7 & H8 & H9 & _).
+  exists ppay, mpay, []. rewrite Hp. repeat split; assumption.
+Qed.
+
+(* WriteData on a known PID: the three outcomes with respect to the tables *)
+Lemma write_data_tables s d s' p ctx : ms_inv s -> write_data s d = (s', p) -> pa_res p <> Panic ->
+  af_entry_ok (MuxerData_AdaptationField d) -> es_find (MuxerData_PID d) (ms_es s) = Some ctx ->
+  let due := data_forced s d || (ms_period s <=? ms_retransmit s + 1) in
+  ms_period s' = ms_period s /\
+  ((due = false /\ no_emission s s' (MWriteData d) p /\ ms_retransmit s' = ms_retransmit s + 1) \/
+   (due = true /\ (exists c, pa_res p = Err c) /\ pa_pkts p = [] /\ no_emission s s' (MWriteData d) p /\
+    ms_retransmit s' = ms_retransmit s + 1) \/
+   (due = true /\ emission s s' (pa_pkts p) /\ ms_retransmit s' = 0)).
+Proof.
+  intros Hinv Hstep Hnp Hen Hfind due.
+  destruct (write_data_spec _ _ _ _ Hstep Hnp Hen (inv_es_wf _ Hinv _)) as [(Hnone & _)|(ctx' & sr & pt & _ & Hrt & Hnpt & Hcases)];
+    [congruence|].
+  assert (Hdue : due = negb (negb (data_forced s d) && (ms_retransmit s + 1 <? ms_period s))).
+  { subst due. destruct (data_forced s d); cbn [negb andb orb]; [reflexivity|]. lia. }
+  destruct (retransmit_spec _ _ _ _ Hrt Hnpt) as [(Hd & Hsr & Hpt)|[(Hd & c & Hc & Hsr & Hp0 & _)|(Hd & Hok & Hsr)]];
+    cbn zeta in Hd; rewrite <- Hdue in Hd.
+  - (* not due *)
+    destruct Hcases as [(c & Hc & _)|(_ & k & up & ug & un & Hpk & _ & _ & Hall & _ & Hsame & _)]; [subst pt; cbn in Hc; discriminate|].
+    destruct Hsame as (S1 & S2 & S3 & S4 & S5 & S6 & S7 & S8 & S9 & S10 & S11). subst sr pt. cbn [pa_pkts app] in Hpk.
+    split; [exact S1|]. left. split; [exact Hd|]. split; [|exact S11].
+    unfold no_emission. cbn [muxer_pkts content_change]. rewrite Hpk, orb_false_r. repeat split; try assumption.
+    eapply starts_with_tables_unit; eauto.
+  - (* due, tables cannot be generated *)
+    destruct Hcases as [(c' & _ & -> & ->)|(Hokpt & _)]; [|rewrite Hc in Hokpt; discriminate].
+    subst sr. split; [reflexivity|]. right; left. split; [exact Hd|]. split; [exists c; exact Hc|]. split; [exact Hp0|].
+    split; [|reflexivity]. unfold no_emission. cbn [muxer_pkts content_change]. rewrite Hp0, orb_false_r. repeat split; reflexivity.
+  - (* due, tables emitted *)
+    destruct Hcases as [(c & Hc & _)|(_ & k & up & ug & un & Hpk & _ & _ & Hall & _ & Hsame & _)].
+    { destruct Hok as (? & ? & ? & ? & Hr & _). rewrite Hr in Hc. discriminate. }
+    destruct Hsame as (S1 & S2 & S3 & S4 & S5 & S6 & S7 & S8 & S9 & S10 & S11). subst sr.
+    split; [exact S1|]. right; right. split; [exact Hd|]. split; [|exact S11].
+    destruct (tables_ok_emission _ _ Hok) as (ppay & mpay & rest & Hp & E1 & E2 & E3 & _).
+    exists ppay, mpay, (rest ++ up). rewrite Hpk, Hp. cbn [app]. repeat split; try assumption.
+Qed.
+
+Lemma table_packet_pids a b pp mp rest :
+  starts_with_tables (table_packet C_PIDPAT a pp :: table_packet C_pmtStartPID b mp :: rest) = true.
+Proof. reflexivity. Qed.
+
+(* every call: either an emission (WriteTables, or WriteData when due) or none *)
+Lemma step_emission s o s' p : ms_inv s -> mux_step_part s o = (s', p) -> pa_res p <> Panic -> op_entry_ok o ->
+  ms_period s' = ms_period s /\
+  ((emission s s' (muxer_pkts o p) /\ content_change o p = false /\
+    match o with MWriteData _ => ms_retransmit s' = 0 | _ => ms_retransmit s' = ms_retransmit s end) \/
+   (no_emission s s' o p /\
+    match o with
+    | MWriteData d => match es_find (MuxerData_PID d) (ms_es s) with
+                      | Some _ => ms_retransmit s' = ms_retransmit s + 1 /\
+                                  ((data_forced s d || (ms_period s <=? ms_retransmit s + 1)) = true -> pa_pkts p = [])
+                      | None => s' = s /\ pa_pkts p = []
+                      end
+    | _ => ms_retransmit s' = ms_retransmit s
+    end)).
+Proof.
+  intros Hinv Hstep Hnp Hen.
+  destruct o as [es|q|q| |d|pk]; cbn [mux_step_part] in Hstep.
+  - split; [|right].
+    + unfold add_es in Hstep. destruct (negb _); [destruct (stream_pid_in _ _)|destruct (next_free_pid _ _ _)]; pinj Hstep; reflexivity.
+    + unfold add_es in Hstep. unfold no_emission. cbn [muxer_pkts content_change].
+      destruct (negb _); [destruct (stream_pid_in _ _)|destruct (next_free_pid _ _ _)]; pinj Hstep;
+        cbn [part_of_res pa_pkts pa_res is_ok set_streams_es ms_pat_version ms_pmt_version ms_pm_updated ms_pmt_updated ms_retransmit starts_with_tables];
+        rewrite ?orb_false_r, ?orb_true_r; repeat split; reflexivity.
+  - split; [|right].
+    + unfold remove_es in Hstep. destruct (stream_pid_in _ _); pinj Hstep; reflexivity.
+    + unfold remove_es in Hstep. unfold no_emission. cbn [muxer_pkts content_change].
+      destruct (stream_pid_in _ _); pinj Hstep;
+        cbn [part_of_res pa_pkts pa_res is_ok set_streams_es ms_pat_version ms_pmt_version ms_pm_updated ms_pmt_updated ms_retransmit starts_with_tables];
+        rewrite ?orb_false_r, ?orb_true_r; repeat split; reflexivity.
+  - pinj Hstep. split; [reflexivity|right]. unfold no_emission. cbn. rewrite orb_true_r. repeat split; reflexivity.
+  - destruct (write_tables_spec _ _ _ Hstep Hnp) as [(c & _ & -> & Hp & _)|Hok].
+    + split; [reflexivity|right]. unfold no_emission. cbn [muxer_pkts content_change]. rewrite Hp, orb_false_r. repeat split; reflexivity.
+    + assert (Hs : s' = tables_state s) by (destruct Hok as (? & ? & ? & ? & _ & _ & _ & _ & _ & _ & _ & _ & _ & Hs); exact Hs).
+      subst s'. split; [reflexivity|left]. split; [apply tables_ok_emission, Hok|]. split; reflexivity.
+  - destruct (es_find (MuxerData_PID d) (ms_es s)) as [ctx|] eqn:Ef.
+    + destruct (write_data_tables _ _ _ _ ctx Hinv Hstep Hnp Hen Ef) as (Hper & [(Hd & Hne & Hr)|[(Hd & _ & Hp0 & Hne & Hr)|(Hd & Hem & Hr)]]).
+      * split; [exact Hper|right]. split; [exact Hne|]. split; [exact Hr|]. intros Hd'. rewrite Hd' in Hd. discriminate.
+      * split; [exact Hper|right]. split; [exact Hne|]. split; [exact Hr|]. intros _. exact Hp0.
+      * split; [exact Hper|left]. repeat split; assumption.
+    + unfold write_data in Hstep. rewrite Ef in Hstep. pinj Hstep. split; [reflexivity|right].
+      unfold no_emission. cbn. rewrite orb_false_r. repeat split; reflexivity.
+  - pinj Hstep. split; [reflexivity|right]. unfold no_emission. cbn. rewrite orb_false_r. repeat split; reflexivity.
+Qed.
